@@ -145,6 +145,10 @@ def family(tier):
     add("macro_x_vkey", "ab", "(defvirtualkeys v (multi lsft (layer-while-held l1)))\n"
                               "(deflayer l0 (macro (on-press press-vkey v) x 1 (on-press release-vkey v)) y)\n"
                               "(deflayer l1 _ z)", qmax=2, seqbound=2, quick=False)
+    # the custom-action list of one key: the button to unclick is threaded through the other custom actions
+    add("custom_list", "ab", "(defvirtualkeys v lctl)\n"
+                             "(deflayer l0 (multi mlft (on-release-fakekey v tap) (mwheel-up 2 120)) (multi (mwheel-down 3 120) mrgt))",
+        qmax=2)
     add("custom_x_taphold", "ab", "(deflayer l0 (multi mlft (tap-hold 0 3 x mrgt)) y)", qmax=2)
     add("custom_x_chordv1", "ab", "(defchords g 3 (a) mrgt (b) x (a b) mlft)\n(deflayer l0 (chord g a) (chord g b))",
         qmax=3, quick=False)
@@ -881,6 +885,52 @@ def dynmacro_limit_jobs(tier, rng):
     return jobs
 
 
+CUSTOM_KINDS = [
+    "(movemouse-speed 50)", "(movemouse-up 3 2)", "(movemouse-left 3 2)", "(movemouse-accel-down 2 20 1 5)",
+    "(mwheel-up 5 120)", "(mwheel-left 5 30)", "mwu", "mltp", "(unicode r)", "(on-press tap-vkey v)",
+    "(on-release tap-vkey v)", "(on-press-fakekey v tap)", "(on-release-fakekey v tap)",
+    "(on-press press-vkey v) (on-release release-vkey v)", "(hold-for-duration 5 v)", "(on-idle 5 tap-vkey v)",
+    "(on-idle-fakekey v tap 5)", "(on-press-delay 1)", "(on-release-delay 1)", "(caps-word 20)", "(unmod a)", "(unshift 1)",
+    "(arbitrary-code 700)", "(setmouse 5 5)", "rpt", "sldr", "(sequence 20)", "(dynamic-macro-play 1)",
+    "dynamic-macro-record-stop", "lrld", "reverse-release-order", "(macro-release-cancel x 3 y)",
+    "(macro-cancel-on-press x 3 y)",
+]
+
+
+def custom_list_jobs(tier, rng, wd, stats):
+    """The release handling of a key's custom-action LIST: a held mouse button together with every other custom-action
+    kind in one multi, in both orders, between two buttons and with a second custom action behind it (the button to
+    unclick is carried through the list).  One configuration per kind (the real parser decides which are accepted);
+    tap, hold, re-press and overlapping histories, then the quiet tail."""
+    C = cfgdesc.code
+    texts, kinds = [], []
+    for i, k in enumerate(CUSTOM_KINDS):
+        k2 = CUSTOM_KINDS[(i + 1) % len(CUSTOM_KINDS)]
+        texts.append("(defcfg sequence-timeout 20)\n(defsrc a b c d e)\n(defvirtualkeys v lctl)\n"
+                     "(deflayer l0 (multi mlft %s) (multi %s mrgt) (multi mmid %s mlft) (multi mrgt %s %s) lsft)\n"
+                     % (k, k, k, k, k2))
+        kinds.append(k)
+    accd, ast = cfggen.accepted(texts, wd, "c01cl", chunk=200)
+    stats["custom_list_cfgs"] = {"texts": len(texts), "accepted": ast["accepted"],
+                                 "rejected_kinds": [k for k, a in zip(kinds, accd) if a is None]}
+    keys = [C(k) for k in "abcde"]
+    jobs = []
+    for t, k, a in zip(texts, kinds, accd):
+        if a is None:
+            continue
+        scripts = []
+        for key in keys[:4]:
+            scripts.append([["d", key], ["t", 3], ["u", key], ["t", 30]])
+            scripts.append([["d", key], ["t", 60], ["u", key], ["t", 5], ["d", key], ["t", 2], ["u", key], ["t", 30]])
+        scripts += overlap_histories(t, list("abcde"), [20], rng, 12 if tier == "quick" else 80)
+        scripts += [rand_history(rng, keys, rng.randint(6, 30), [0, 1, 1, 2, 6, 25]) for _ in range(2 if tier == "quick" else 30)]
+        p = text_params(t, extra=400 if "dynamic-macro" in t else 0)
+        for s in scripts:
+            s.append(["t", bound_of(p) + 30])
+        jobs.append({"cfg": t, "params": p, "tag": "x:custom_list:" + k.split()[0].strip("("), "scripts": scripts})
+    return jobs + spelling_twins(jobs, keep=8)
+
+
 def random_jobs(tier, rng, wd, stats):
     ncfg = 90 if tier == "quick" else 800
     texts, metas = [], []
@@ -955,7 +1005,7 @@ def run(tier, seed):
     witness_jobs = mc_part(res, tier, wd, rng)
     log("[C01] model checking part: %.1fs" % (time.time() - t0))
     parts = [("witness", witness_jobs), ("family", family_random_jobs(tier, rng)), ("burst", burst_jobs(tier, rng)),
-             ("extra", extra_feature_jobs(tier, rng) + dynmacro_limit_jobs(tier, rng))]
+             ("extra", extra_feature_jobs(tier, rng) + dynmacro_limit_jobs(tier, rng) + custom_list_jobs(tier, rng, wd, stats))]
     rj, used = random_jobs(tier, rng, wd, stats)
     parts.append(("random", rj))
     for label, jobs in parts:
